@@ -297,7 +297,10 @@ func resolveRoles(p *Prog) *Roles {
 	r.FMx = pick("worker mutex field", fieldOfType(wst, wname, func(t types.Type) bool { return isNamed(t, "sync.RWMutex") || isNamed(t, "sync.Mutex") }))
 	r.FPool = pick("pool field", fieldOfType(wst, wname, func(t types.Type) bool { return isNamed(t, modPath+"/internal/pool.Pool") }))
 	r.FQueues = pick("queue manager field", fieldOfType(wst, wname, func(t types.Type) bool { return isNamed(t, modPath+".queueManager") }))
-	r.FWorkerFn = pick("worker function field", fieldOfType(wst, wname, func(t types.Type) bool { _, ok := t.Underlying().(*types.Signature); return ok && !isNamed(t, "context.CancelFunc") }))
+	r.FWorkerFn = pick("worker function field", fieldOfType(wst, wname, func(t types.Type) bool {
+		_, ok := t.Underlying().(*types.Signature)
+		return ok && !isNamed(t, "context.CancelFunc")
+	}))
 	r.FCtx = pick("context field", fieldOfType(wst, wname, func(t types.Type) bool { return isNamed(t, "context.Context") }))
 	r.FCancel = pick("cancel field", fieldOfType(wst, wname, func(t types.Type) bool { return isNamed(t, "context.CancelFunc") }))
 	r.FConfigs = pick("configs field", fieldOfType(wst, wname, func(t types.Type) bool { return isNamed(t, modPath+".configs") }))
